@@ -176,12 +176,37 @@ func (d *cnDriver) genCommits(nonceBump map[string]uint64) []cnTxMeta {
 			}
 			continue
 		}
+		round := v.Round + 1
+		if q, ok := d.rhQuiet[v.RT]; ok {
+			if q == round {
+				continue // the round was left to its timer (see the ladder below)
+			}
+			delete(d.rhQuiet, v.RT)
+		}
 		if d.rng.Intn(10) < 3 {
 			continue // nothing for this runtime in this block (timeouts get their chance)
 		}
-		round := v.Round + 1
 		nw := int64(len(v.W))
 		sched0 := v.W[(nw-round%nw)%nw] // the worker of rank 0 in this round (scheduler.Committee.SchedulerIdx)
+		if v.NCommits == 0 && nw >= 2 && d.rng.Intn(6) == 0 {
+			// ladder: in ONE block the own commitments of schedulers of improving rank (worst first), each of which re-arms the
+			// round timer - the later ones to the height it already has; afterwards the round is left to that timer
+			ranked := make([]string, nw) // ranked[k] = the worker of rank k
+			for k := int64(0); k < nw; k++ {
+				ranked[k] = v.W[(k+(nw-round%nw)%nw)%nw]
+			}
+			from := 1 + d.rng.Intn(int(nw)-1)
+			for k := from; k >= 0; k-- {
+				if k > 0 && k < from && d.rng.Intn(2) == 0 {
+					continue
+				}
+				metas = append(metas, d.rhTx(v, ranked[k], ranked[k], "A", "ok", nonceBump)...)
+			}
+			if d.rng.Intn(4) > 0 {
+				d.rhQuiet[v.RT] = round
+			}
+			continue
+		}
 		members := append(append([]string{}, v.W...), v.B...)
 		k := 1 + d.rng.Intn(3)
 		for i := 0; i < k; i++ {
